@@ -8,8 +8,25 @@ import sys
 import time
 
 VERIF = os.path.dirname(os.path.dirname(os.path.abspath(__file__)))
-REPO = "/repo"
+# background runs (`vp run --with-repo`) get a private snapshot of the repository
+REPO = os.environ.get("VP_RUN_REPO") or "/repo"
 HARNESS = os.path.join(VERIF, "harness")
+
+
+def harness_dir():
+    """The harness crate; when the repository under test is not /repo, a copy whose path
+    dependency points at it."""
+    if REPO == "/repo":
+        return HARNESS
+    alt = os.path.join(VERIF, "work", "harness-alt")
+    shutil.rmtree(alt, ignore_errors=True)
+    shutil.copytree(HARNESS, alt)
+    m = os.path.join(alt, "Cargo.toml")
+    with open(m) as f:
+        t = f.read()
+    with open(m, "w") as f:
+        f.write(t.replace('path = "/repo"', 'path = "%s"' % REPO))
+    return alt
 NSHARDS = int(os.environ.get("VERIF_SHARDS", "16"))
 
 ENV = dict(os.environ)
@@ -46,7 +63,7 @@ def build(variant="full"):
     env["CARGO_TARGET_DIR"] = target
     env["RUSTFLAGS"] = "--cfg bpaf_verif" if hooks else ""
     cmd = ["cargo", "build", "--release", "--offline", "--manifest-path",
-           os.path.join(HARNESS, "Cargo.toml")]
+           os.path.join(harness_dir(), "Cargo.toml")]
     if feats:
         cmd += ["--features", feats]
     t0 = time.time()
